@@ -1,0 +1,8 @@
+//go:build !verif
+
+// Package verifhook provides named yield points for the external
+// verification harness. Without the "verif" build tag Point is empty.
+package verifhook
+
+// Point is a named yield point (disabled).
+func Point(string) {}
